@@ -13,7 +13,7 @@ from __future__ import annotations
 import ast
 
 from ..index import AnchorMissing, Unrecognised
-from ..astutil import u, body_walk, local_env, func_calls, walk_local, single_return_expr, inline_locals
+from ..astutil import linear_body, u, body_walk, local_env, func_calls, walk_local, single_return_expr, inline_locals
 from .. import sym
 from ..cfg import CFG
 
@@ -81,24 +81,24 @@ def r2_operands_encoded(ctx):
     ctx.ob(au.where, "every other ufunc is refused (NotImplemented)", rets.count("NotImplemented") == 2 and len(rets) == 3, str(rets), key="C07-R2|ufunc-refuse")
     pi = ix.func(EA, "_parse_ufunc_inputs")
     ys = [x for x in body_walk(pi.node) if isinstance(x, ast.Yield)]
-    ok = len(ys) == 1 and sym.canon(ys[0].value) == f"as_encoded_array(a, {pi.params[1]}).raw()" and any(isinstance(x, ast.For) and u(x.iter) == pi.params[0] for x in pi.node.body)
+    ok = len(ys) == 1 and sym.canon(ys[0].value) == f"as_encoded_array(a, {pi.params[1]}).raw()" and any(isinstance(x, ast.For) and u(x.iter) == pi.params[0] for x in linear_body(pi.node))
     ctx.ob(pi.where, "each ufunc operand is converted to the target encoding and then to raw codes", ok, "", key="C07-R2|parse-inputs")
     ru = ix.func(EA, "EncodedRaggedArray.__array_ufunc__")
     env = {}
-    for s in ru.node.body:
+    for s in linear_body(ru.node):
         if isinstance(s, ast.Assign) and isinstance(s.targets[0], ast.Name):
             env.setdefault(s.targets[0].id, []).append(s.value)
     ok = sym.canon(env["inputs"][0]) == sym.canon(sym.parse_expr("[as_encoded_array(i, self.ravel().encoding).raw() for i in inputs]")) and \
         sym.canon(env["kwargs"][0]) == sym.canon(sym.parse_expr("{key: as_encoded_array(val, self.ravel().encoding).raw() for key, val in kwargs.items()}"))
     ctx.ob(ru.where, "EncodedRaggedArray ufuncs: every positional and keyword operand is encoded with the array's encoding first", ok, "", key="C07-R2|ragged-ufunc")
     si = ix.func(EA, "EncodedArray.__setitem__")
-    st = [s for s in si.node.body if isinstance(s, (ast.Assign, ast.Expr)) and not (isinstance(s, ast.Expr) and isinstance(s.value, ast.Constant))]
+    st = [s for s in linear_body(si.node) if isinstance(s, (ast.Assign, ast.Expr)) and not (isinstance(s, ast.Expr) and isinstance(s.value, ast.Constant))]
     idx, val = si.params[1], si.params[2]
     ok = len(st) == 2 and isinstance(st[0], ast.Assign) and sym.canon(st[0].value) == f"as_encoded_array({val}, self.encoding)" and u(st[0].targets[0]) == val and \
         sym.canon(st[1].value) == f"self.data.__setitem__({idx}, {val}.data)"
     ctx.ob(si.where, "item assignment encodes the value with the array's encoding, then stores its codes", ok, "; ".join(u(s) for s in st), key="C07-R2|setitem")
     sd = ix.func(EA, "EncodedRaggedArray._set_data_range")
-    st = [s for s in sd.node.body if not (isinstance(s, ast.Expr) and isinstance(s.value, ast.Constant))]
+    st = [s for s in linear_body(sd.node) if not (isinstance(s, ast.Expr) and isinstance(s.value, ast.Constant))]
     ok = len(st) == 1 and isinstance(st[0], ast.Expr) and sym.canon(st[0].value) == f"super()._set_data_range({sd.params[1]}, as_encoded_array({sd.params[2]}, self._encoding).raw())"
     ctx.ob(sd.where, "ragged item assignment encodes *every* value (already encoded or not) with the array's encoding before storing its codes", ok, "; ".join(u(s) for s in st),
            key="C07-R2|set-data-range")
@@ -137,7 +137,7 @@ def r4_text_helpers(ctx):
     f = ix.func(S, "_str_equal_two_encoded_ragged_arrays")
     a, b = f.params
     env = {}
-    seq = [s for s in f.node.body if isinstance(s, (ast.Assign, ast.AugAssign))]
+    seq = [s for s in linear_body(f.node) if isinstance(s, (ast.Assign, ast.AugAssign))]
     txt = [u(s) for s in seq]
     want = [f"{a} = as_encoded_array({a})", f"L = {b}.lengths", f"mask = {a}.lengths == L", f"mask[mask] &= ({a}[mask] == {b}[mask]).all(axis=-1)"]
     if txt == want:
@@ -200,7 +200,7 @@ def r5_stale_shape(ctx):
                 continue
             n += 1
             saved = {}
-            for s in fi.node.body:
+            for s in linear_body(fi.node):
                 if isinstance(s, ast.Assign) and isinstance(s.targets[0], ast.Name):
                     v = s.value.body if isinstance(s.value, ast.IfExp) else s.value
                     if isinstance(v, ast.Attribute) and v.attr in ("_shape",) and isinstance(v.value, ast.Name):
